@@ -61,6 +61,12 @@ def gen(rng, tier):
         main.append({"op": "shutdown", "ex": "A", "wait": True})
         kn = gen_knobs(rng, tier)
         kn["J"] = min(kn["J"], 1.0)     # delivery is stated for scheduling delays far below the 100 s task length
+        if rng.random() < 0.35 and not kn.get("pct") and not kn.get("pct_at"):
+            # "every submit tops the pool back up": delay the submitting or the managing thread at one line
+            kn.pop("hot", None)
+            kn["line_at"] = {"func": rng.choice(["submit", "submit", "process_result_item", "_adjust_process_count",
+                                                 "_ensure_executor_running", "add_call_item_to_queue"]),
+                             "n": rng.randint(1, 70)}
         return dict(family="parallel", knobs=kn, model=gen_model(rng), threads=threads,
                     faults=[], deliver=workers)
     for th in range(nthreads):
